@@ -38,6 +38,26 @@ fn case(c: &Case, rec: &mut Rec) {
     for (nm, v) in [("B", b), ("C", cc), ("dB_dT", bt), ("dC_dT", ct)] {
         rec.require("finite", nm, v.is_finite(), || format!("{nm} = {v}"));
     }
+    // virial coefficients are intensive: the same composition given as another amount of substance (and, for a pure
+    // component, as `None`) gives the same four numbers
+    for (tag, mm) in [("2.5 mol", Some(Moles::from_reduced(&c.x * 2.5))), ("1e-3 mol", Some(Moles::from_reduced(&c.x * 1e-3))), ("None", None)] {
+        // (the virial coefficients of the Helmholtz energy functionals are dominated by cancellation noise at zero density -
+        // recorded findings of the limit oracle - so that no two evaluations of them agree)
+        if mm.is_none() && c.x.len() != 1 || c.entry.functional {
+            continue;
+        }
+        let q = [
+            eos.second_virial_coefficient(tt, mm.as_ref()).map(|v| v.to_reduced()).unwrap_or(f64::NAN),
+            eos.third_virial_coefficient(tt, mm.as_ref()).map(|v| v.to_reduced()).unwrap_or(f64::NAN),
+            eos.second_virial_coefficient_temperature_derivative(tt, mm.as_ref()).map(|v| v.to_reduced()).unwrap_or(f64::NAN),
+            eos.third_virial_coefficient_temperature_derivative(tt, mm.as_ref()).map(|v| v.to_reduced()).unwrap_or(f64::NAN),
+        ];
+        for ((nm, v0), v) in [("B", b), ("C", cc), ("dB_dT", bt), ("dC_dT", ct)].into_iter().zip(q) {
+            if v0.is_finite() {
+                rec.check("amount_invariant", &format!("{nm}|{tag}"), (v - v0).abs() / (1e-10 * v0.abs() + 1e-300), v0 != 0.0, || format!("{nm} = {v0:e} for 1 mol in total, {v:e} for {tag}"));
+            }
+        }
+    }
     // (Z-1)/rho from real finite-density states; Z_res avoids the cancellation in Z - 1
     let f = |rho: f64| mk(eos, t, 1.0 / rho, &c.x).compressibility(Contributions::Residual) / rho;
     // natural scale of B: the excluded volume 1/rho_max
